@@ -25,9 +25,10 @@
      deferUpdateTime = deferPtrUpdateTime = 0 (the deferred ptrAddEvent call site of rfbUpdateClient is
      not modelled), handleEventsEagerly = FALSE, rfbShutdownServer(screen, TRUE) only, no extensions
      (no extension newClient / close hooks), no file-transfer quota denial, true-colour server format.
-   * connections that reach rfbNewClient by another route (reverse connections, UDP, inetd, the httpd
-     proxy hand-over), WebSocket upgrades and the rfbSetNonBlocking failure exit are NOT in the model;
-     they are TESTED by the specification oracle only (props/C12.py, transport sessions).
+   * routes into rfbNewClient: direct calls, the listening socket, the inetd descriptor ([OInetd]) and the
+     rfbSetNonBlocking failure exits (decisions [DNonblock], [DNonblockLate]) ARE in the model.  The httpd
+     proxy hand-over and WebSocket upgrades are NOT: they are TESTED by the specification oracle only
+     (props/C12.py, transport sessions).  Reverse connections and UDP clients are not exercised at all.
    * application calls are made on clients the application still owns: an operation naming a freed or
      absent connection is a no-op in the model (C would dereference a dangling pointer).
    * "no teardown re-locks a mutex it holds" is NOT a theorem: after the fixes the model never sets a
@@ -217,6 +218,49 @@ Theorem C12_handshake_others_untouched : forall k j m s, j <> k ->
   get (send_challenge k s) j = get s j /\ get (process_auth k m s) j = get s j /\
   get (send_xvp k s) j = get s j /\ get (send_update k s) j = get s j.
 Proof. exact handshake_frame. Qed.
+
+(* --- rfbSetNonBlocking fails on a new descriptor (rfbNewConnectionFromSock, sockets.c:117, or
+   rfbNewTCPOrUDPClient, rfbserver.c:370 after commit e7275e4; model outcome [dead_conn], decision
+   [DNonblock] of the accept operations): after any history the connection ends with exactly one close, no
+   hook call, an empty resource ledger and an empty leak list; reference counts, chain, client list,
+   descriptor set, maxFd, the I/O call counter and every existing record are unchanged.  (Through
+   C12_refcounts_match_users, C12_gone_once, ... the general theorems cover runs containing such failures too.) *)
+Theorem C12_nonblock_failure_releases_everything : forall cfg ops pre po,
+  let s0 := run cfg ops in
+  let s := run cfg (ops ++ [OAccept DNonblock pre po]) in
+  s_cleaned s0 = false -> (if s_listening s0 then [] else s_pending s0) = [] ->   (* no inetd descriptor still waiting *)
+  (exists c, get s (length (s_conns s0)) = Some c /\ l_freed (c_life c) = true /\ l_close (c_life c) = 1%nat /\
+             l_new (c_life c) = 0%nat /\ l_gone (c_life c) = 0%nat /\ p_res (c_proto c) = [] /\ c_leak c = []) /\
+  s_ref s = s_ref s0 /\ s_scaled s = s_scaled s0 /\ s_order s = s_order s0 /\
+  s_allfds s = s_allfds s0 /\ s_maxfd s = s_maxfd s0 /\ s_ioc s = s_ioc s0 /\
+  (forall j c, get s0 j = Some c -> get s j = Some c).
+Proof. exact nonblock_failure_outcome. Qed.
+
+Example C12_nonblock_failure_listen_nonvacuous :
+  let s := run cfg0 [OAccept DAccept [] true; OLAccept DNonblock [] true; OPe; OShutdown] in
+  length (s_conns s) = 2%nat /\ s_ref s = 0%Z /\
+  exists c, get s 1%nat = Some c /\ l_freed (c_life c) = true /\ l_close (c_life c) = 1%nat /\ l_new (c_life c) = 0%nat.
+Proof. exact nonblock_listen_nonvacuous. Qed.
+
+(* --- the inetd route (operation [OInetd]: rfbInitSockets with screen->inetdSock, hand-over by the first
+   rfbCheckFds before its select(), rfbShutdownSockets after commit 284406e).  Every theorem above quantifies
+   over ALL operation lists, hence covers runs that start with [OInetd]: in particular C12_gone_once says the
+   inetd connection ends with exactly one close.  Explicit witnesses: peer close then shutdown; shutdown with
+   the client open; shutdown BEFORE the hand-over (rfbShutdownSockets closes the descriptor, once, no hook);
+   rfbSetNonBlocking failing at the hand-over. *)
+Theorem C12_inetd_descriptor_closed_once :
+  (let s := run cfg0 ([OInetd DAccept ver38 true; OPe; OPeerClose 0; OPe; OShutdown]) in
+   s_ref s = 0%Z /\ exists c, get s 0%nat = Some c /\ l_freed (c_life c) = true /\ l_close (c_life c) = 1%nat /\
+                              l_gone (c_life c) = 1%nat /\ c_leak c = []) /\
+  (let s := run cfg0 ([OInetd DAccept ver38 true; OPe; OShutdown]) in
+   s_ref s = 0%Z /\ exists c, get s 0%nat = Some c /\ l_freed (c_life c) = true /\ l_close (c_life c) = 1%nat /\
+                              l_gone (c_life c) = 1%nat) /\
+  (let s := run cfg0 ([OInetd DAccept ver38 true; OShutdown; OPe]) in
+   s_ref s = 0%Z /\ length (s_conns s) = 1%nat /\
+   exists c, get s 0%nat = Some c /\ l_freed (c_life c) = true /\ l_close (c_life c) = 1%nat /\ l_new (c_life c) = 0%nat) /\
+  (let s := run cfg0 ([OInetd DNonblock ver38 true; OPe; OShutdown]) in
+   s_ref s = 0%Z /\ exists c, get s 0%nat = Some c /\ l_freed (c_life c) = true /\ l_close (c_life c) = 1%nat /\ l_new (c_life c) = 0%nat).
+Proof. exact inetd_witnesses. Qed.
 
 (* --- regression anchors: the witnesses of the four repaired defects, and a refusal on the
    listening-socket path, end with exactly one close and one gone hook *)
